@@ -4,16 +4,18 @@ usage: seed_eval.py <Cxx> [--props C01,C02] [--keep-worktree]
 Reads /tmp/seed-<Cxx> (worktree with the change applied + demo) and /tmp/seed-<Cxx>-out.
 Writes /verif/seeded/<Cxx>/{patch.diff,<demo>,notes.md,meta.json}."""
 import json, os, subprocess, sys, shutil, re, glob, time
-cid = sys.argv[1]
+sid = sys.argv[1]              # seed id: "C01" (first batch) or "C01-2" (second batch)
+cid = sid.split('-')[0]        # property id
+batch = sid.split('-')[1] if '-' in sid else ''
 props = [cid]
 for i,a in enumerate(sys.argv):
     if a == '--props': props = sys.argv[i+1].split(',')
-wt = f'/tmp/seed-{cid}'; out = f'/tmp/seed-{cid}-out'
+wt = f'/tmp/seed{batch}-{cid}'; out = f'/tmp/seed{batch}-{cid}-out'
 env = dict(os.environ, GOFLAGS='-mod=mod', GOPROXY='off', GOSUMDB='off', GOTOOLCHAIN='local')
 def run(cmd, cwd=None, timeout=3600):
     p = subprocess.run(cmd, shell=True, cwd=cwd, env=env, stdout=subprocess.PIPE, stderr=subprocess.STDOUT, text=True, errors='replace', timeout=timeout)
     return p.returncode, p.stdout
-dst = f'/verif/seeded/{cid}'
+dst = f'/verif/seeded/{sid}'
 os.makedirs(dst, exist_ok=True)
 if not os.path.isdir(wt) and os.path.exists(f'{dst}/meta.json'):
     # re-check mode: the change was confirmed earlier; run the (strengthened) checks again
@@ -21,7 +23,7 @@ if not os.path.isdir(wt) and os.path.exists(f'{dst}/meta.json'):
     res = {}
     # the change is applied to a scratch worktree of /repo (GOSYM_REPO), so /repo itself stays untouched
     # and other runs are not disturbed; equivalent to `git -C /repo apply` + `git -C /repo checkout -- .`
-    swt = f'/tmp/seedwt-{cid}-{os.getpid()}'
+    swt = f'/tmp/seedwt-{sid}-{os.getpid()}'
     run(f"git -C /repo worktree add --detach {swt} HEAD")
     rc_a, oa = run(f"git -C {swt} apply {dst}/patch.diff")
     if rc_a != 0:
@@ -38,9 +40,9 @@ if not os.path.isdir(wt) and os.path.exists(f'{dst}/meta.json'):
     meta.setdefault('rechecks', []).append({'at': time.strftime('%Y-%m-%dT%H:%M:%SZ', time.gmtime()), 'checks': res})
     meta['detected_after_strengthening'] = any(r['exit'] == 1 for r in res.values())
     json.dump(meta, open(f'{dst}/meta.json','w'), indent=1)
-    print('recheck', cid, {p: (r['exit'], r['violations'][:2]) for p, r in res.items()})
+    print('recheck', sid, {p: (r['exit'], r['violations'][:2]) for p, r in res.items()})
     sys.exit(0)
-meta = {'property': cid, 'evaluated_at': time.strftime('%Y-%m-%dT%H:%M:%SZ', time.gmtime())}
+meta = {'property': cid, 'seed': sid, 'evaluated_at': time.strftime('%Y-%m-%dT%H:%M:%SZ', time.gmtime())}
 # 1. locate change and demo
 rc, changed = run("git diff --name-only", cwd=wt)
 changed = [c for c in changed.split() if c and 'zz_seed_demo' not in c]
@@ -78,10 +80,13 @@ meta['demo_fail_tail'] = o1[-600:]
 # 3. run our checks against it
 res = {}
 if meta['confirmed']:
-    rc_a, oa = run(f"git -C /repo apply {dst}/patch.diff")
+    swt = f'/tmp/seedwt-{sid}-{os.getpid()}'
+    run(f"git -C /repo worktree add --detach {swt} HEAD")
+    rc_a, oa = run(f"git -C {swt} apply {dst}/patch.diff")
     if rc_a != 0:
         meta['apply_error'] = oa
     else:
+        env['GOSYM_REPO'] = swt
         try:
             for p in props:
                 t0 = time.time()
@@ -89,7 +94,8 @@ if meta['confirmed']:
                 viol = [l.strip() for l in oc.splitlines() if l.startswith('VIOLATION') or l.strip().startswith('harness=')]
                 res[p] = {'exit': rc_c, 'wall_s': round(time.time()-t0,1), 'violations': viol[:12], 'tail': oc.splitlines()[-1] if oc else ''}
         finally:
-            run("git -C /repo checkout -- .")
+            pass
+    run(f"git -C /repo worktree remove --force {swt}")
 meta['checks'] = res
 meta['detected'] = any(r['exit'] == 1 for r in res.values())
 json.dump(meta, open(f'{dst}/meta.json','w'), indent=1)
